@@ -11,6 +11,6 @@ open UBidi UBidi.BidiClass UBidi.Lemmas.C01Neutral UBidi.Lemmas.C01Weak
     stage's lemma -/
 theorem weakInv (ds : DataSource) : WeakInv ds := by
   intro t seq ocs pcs0 S
-  exact weak_stageN_hyps ds t S.wf S.unit seq S.bound S.sos S.eos ocs pcs0 S.runs S.rem S.kept S.ov S.brk
+  exact weak_stageN_hyps ds t S.wf S.unit seq S.bound S.sos S.eos ocs pcs0 S.runs S.rem S.kept S.ov
 
 end UBidi.Lemmas.C01Compose
